@@ -20,10 +20,19 @@ func (c *Calcium) Send(ctx context.Context, opts *types.SendOptions) (chan *type
 	ch := make(chan *types.SendMessage)
 	_ = c.pool.Invoke(func() {
 		defer close(ch)
-		wg := &sync.WaitGroup{}
-		wg.Add(len(opts.IDs))
-
+		// an ID given twice still is one target: send it the files (and report them) once
+		IDs := make([]string, 0, len(opts.IDs))
+		seen := map[string]struct{}{}
 		for _, ID := range opts.IDs {
+			if _, ok := seen[ID]; !ok {
+				seen[ID] = struct{}{}
+				IDs = append(IDs, ID)
+			}
+		}
+		wg := &sync.WaitGroup{}
+		wg.Add(len(IDs))
+
+		for _, ID := range IDs {
 			logger.Infof(ctx, "Send files to %s", ID)
 			_ = c.pool.Invoke(func(ID string) func() {
 				return func() {
